@@ -117,3 +117,29 @@ impl Service {
         res.into_iter()
     }
 }
+
+#[cfg(feature = "verif-hooks")]
+impl Service {
+    pub(crate) fn verif_snapshot(&self) -> crate::verif::ServiceSnapshot {
+        crate::verif::ServiceSnapshot {
+            cookie: self.cookie,
+            object_cookie: self.object_cookie,
+            function_calls: self.function_calls.iter().copied().collect(),
+            events: self
+                .events
+                .iter()
+                .map(|(&ev, ids)| (ev, ids.iter().map(ConnectionId::verif_raw).collect()))
+                .collect(),
+            all_events: self
+                .all_events
+                .iter()
+                .map(ConnectionId::verif_raw)
+                .collect(),
+            subscriptions: self
+                .subscriptions
+                .iter()
+                .map(ConnectionId::verif_raw)
+                .collect(),
+        }
+    }
+}
